@@ -284,6 +284,7 @@ func (e *Encoder) envAt(st *State, blk *ssa.BasicBlock, phiOverride map[string]V
 		return pc, ok
 	}
 	env.namedKnown = e.namedKnown
+	env.zero = e.zero
 	env.curCtr = st.ctr
 	env.tok = func(name string) string { return e.token(st, name) }
 	env.critMem = func(key, srt string) string {
@@ -526,6 +527,38 @@ func (e *Encoder) block(b *ssa.BasicBlock) {
 	for si, s := range b.Succs {
 		if e.back[[2]*ssa.BasicBlock{b, s}] {
 			e.loopBack(e.loops[s], b, si, st, pc)
+			if li := e.loops[s]; li != nil && li.spec != nil && len(li.spec.Backs) > 0 {
+				env := e.envAt(st, b, nil)
+				// entered(j): the header of loop j was reached in the iteration that ends here (the loop body is
+				// encoded once, from the havoc'd head: the header's path condition is this iteration's)
+				env.entered = func(j int) (string, bool) {
+					for _, lj := range e.loops {
+						if lj != nil && lj.ord == j && li.body[lj.header] {
+							if p, ok := e.pcs[lj.header]; ok {
+								return p, true
+							}
+							return "false", true
+						}
+					}
+					return "", false
+				}
+				epc := and(pc, edgeCond(e, b, s, si))
+				for _, bk := range li.spec.Backs {
+					if !e.clauseInMode(bk) {
+						continue
+					}
+					f, err := env.ElabBool(bk.E)
+					if err != nil {
+						e.errs = append(e.errs, fmt.Sprintf("loop %d backedge %q: %v", li.ord, bk.Text, err))
+						continue
+					}
+					kind := fmt.Sprintf("loop-backedge loop %d", li.ord)
+					if bk.Tag != "" {
+						kind += " " + bk.Tag
+					}
+					e.addObl(kind, bk.Text, epc, f)
+				}
+			}
 		}
 	}
 	// edges that leave a loop: its exit assertions
